@@ -797,10 +797,9 @@ impl Arena {
     let mut allocated = header.allocated.load(Ordering::Acquire);
 
     loop {
-      let want = allocated + size;
-      if want > self.cap {
+      let Some(want) = allocated.checked_add(size).filter(|want| *want <= self.cap) else {
         break;
-      }
+      };
 
       match header.allocated.compare_exchange_weak(
         allocated,
@@ -946,10 +945,13 @@ impl Arena {
     let want = loop {
       let aligned_offset = align_offset::<T>(allocated);
       let size = mem::size_of::<T>() as u32;
-      let want = aligned_offset + size + extra;
-      if want > self.cap {
-        break size + extra;
-      }
+      let Some(want) = aligned_offset
+        .checked_add(size)
+        .and_then(|want| want.checked_add(extra))
+        .filter(|want| *want <= self.cap)
+      else {
+        break size.saturating_add(extra);
+      };
 
       match header.allocated.compare_exchange_weak(
         allocated,
@@ -972,6 +974,14 @@ impl Arena {
       }
     };
 
+    // the padded request must be representable, otherwise no segment can hold it
+    let Some(padded) = (Self::pad::<T>() as u32).checked_add(extra) else {
+      return Err(Error::InsufficientSpace {
+        requested: want,
+        available: self.remaining() as u32,
+      });
+    };
+
     // allocate through slow path
     let mut i = 0;
     loop {
@@ -983,7 +993,7 @@ impl Arena {
           });
         }
         Freelist::Optimistic => {
-          match self.alloc_slow_path_optimistic(Self::pad::<T>() as u32 + extra) {
+          match self.alloc_slow_path_optimistic(padded) {
             Ok(mut bytes) => {
               bytes.align_bytes_to::<T>();
               return Ok(Some(bytes));
@@ -996,7 +1006,7 @@ impl Arena {
           }
         }
         Freelist::Pessimistic => {
-          match self.alloc_slow_path_pessimistic(Self::pad::<T>() as u32 + extra) {
+          match self.alloc_slow_path_pessimistic(padded) {
             Ok(mut bytes) => {
               bytes.align_bytes_to::<T>();
               return Ok(Some(bytes));
